@@ -6,122 +6,25 @@ from __future__ import annotations
 import ast
 
 from ..core import AnalysisError, dotted, parent_chain
-from ..lexmodel import LexModel, ANY
+from ..lexlaws import Frames, law_closer_optional, law_total
+from ..lexprobe import LexProbe
 from ..pe import Interp
 
 level = "other"
 
 
-def guarded_by_source(node, src, stop):
-    """Is `node` inside the body of an `if`/`while` whose test starts with the
-    truthiness of the input queue (so end of input is handled)?"""
-    child = node
-    for par in parent_chain(node):
-        if par is stop:
-            break  # the main `while source:` loop only guards the head pop
-        if isinstance(par, ast.BoolOp) and isinstance(par.op, ast.And):
-            first = par.values[0]
-            if isinstance(first, ast.Name) and first.id == src and not any(
-                    child is x for x in ast.walk(first)):
-                return True  # later conjunct of `source and ...`
-        if isinstance(par, (ast.If, ast.While)):
-            in_body = any(child is s or any(child is x for x in ast.walk(s))
-                          for s in par.body)
-            in_test = any(child is x for x in ast.walk(par.test))
-            t = par.test
-            first = t.values[0] if isinstance(t, ast.BoolOp) and isinstance(
-                t.op, ast.And) else t
-            if isinstance(first, ast.Name) and first.id == src:
-                if in_body:
-                    return True
-                if in_test and isinstance(t, ast.BoolOp) and not any(
-                        child is x for x in ast.walk(first)):
-                    return True  # later conjunct of `source and ...`
-        if par is stop:
-            break
-        child = par
-    return False
-
-
 def check(chk, repo, tier):
-    chk.trusted_base += ["CPython ast"]
+    chk.trusted_base += ["CPython ast", "vystatic.pe interpreter subset"]
     it = Interp(repo)
-    lm = LexModel(repo, it)
-    src, head = lm.src_var, lm.head_var
+    lp = LexProbe(repo, it)
+    fr = Frames(lp)
     LF = repo.mod("lexer").rel
-    fn = lm.fn
-
-    # ---- (L-e) every look at the input queue tolerates end of input -------------
-    n_access = 0
-    for n in ast.walk(fn):
-        acc = None
-        if isinstance(n, ast.Call) and dotted(n.func) == f"{src}.popleft":
-            acc = n
-        elif isinstance(n, ast.Subscript) and isinstance(n.value, ast.Name) \
-                and n.value.id == src:
-            acc = n
-        if acc is None:
-            continue
-        n_access += 1
-        par = getattr(acc, "_parent", None)
-        is_head_pop = isinstance(par, (ast.Assign, ast.AnnAssign)) and any(
-            isinstance(t, ast.Name) and t.id == head
-            for t in (par.targets if isinstance(par, ast.Assign)
-                      else [par.target])) and getattr(
-            par, "_parent", None) is lm.loop
-        ok = is_head_pop or guarded_by_source(acc, src, lm.loop)
-        chk.ob("C04.lexer-end-of-input-tolerant",
-               f"lexer:{ast.unparse(acc)}@{_branch_label(lm, acc)}", ok,
-               f"`{ast.unparse(acc)}` is not guarded by `{src}` being "
-               "non-empty: a program that ends here (closer omitted) raises "
-               "instead of lexing as if closed", LF, acc.lineno,
-               sample={"access": ast.unparse(acc)})
-    chk.floor("accesses to the lexer input queue", n_access, 15)
-
-    # ---- (L-a..c) delimiter-terminated literals -------------------------------------
-    n_lit = 0
-    for br in lm.branches:
-        if br.chars is ANY:
-            continue
-        closed = [k for k in br.kinds if k in (
-            "STRING", "COMPRESSED_NUMBER", "COMPRESSED_STRING")]
-        scans = [s for s in br.body if isinstance(s, ast.While)]
-        if not closed or not scans:
-            continue
-        if not any(f"{src}[0] != {head}" in ast.unparse(s.test)
-                   for s in scans):
-            continue
-        n_lit += 1
-        label = "".join(sorted(br.chars))
-        # the token is appended unconditionally, at the branch's top level
-        top_appends = [s for s in br.body if isinstance(s, ast.Expr)
-                       and any(c in br.token_sites for c in ast.walk(s))]
-        chk.ob("C04.literal-built-without-closer", f"lexer branch {label!r}",
-               bool(top_appends),
-               "the literal token is only built on some paths (e.g. when the "
-               "closing delimiter was seen): an unterminated literal at the "
-               "end of the program disappears", LF, br.line,
-               sample={"branch": label})
-        # the closing delimiter is discarded only if present
-        disc = [s for s in br.body if isinstance(s, ast.If)
-                and isinstance(s.test, ast.Name) and s.test.id == src
-                and any(isinstance(c, ast.Call) and dotted(c.func) ==
-                        f"{src}.popleft" for c in ast.walk(s))]
-        bare = [s for s in br.body if isinstance(s, ast.Expr)
-                and isinstance(s.value, ast.Call)
-                and dotted(s.value.func) == f"{src}.popleft"]
-        chk.ob("C04.closer-optional", f"lexer branch {label!r}",
-               bool(disc) and not bare,
-               "the closing delimiter must be consumed under `if source:` "
-               "(absent at end of input)", LF, br.line)
-        # the value never includes the delimiter: the scan stops *before* it
-        for s in scans:
-            t = ast.unparse(s.test)
-            chk.ob("C04.value-excludes-closer", f"lexer branch {label!r}",
-                   t.replace(" ", "").startswith(f"{src}and"),
-                   f"scan loop `{t}` must test the queue first and stop "
-                   "before the delimiter", LF, s.lineno)
-    chk.floor("delimiter-terminated literal branches", n_lit, 1)
+    # ---- lexer laws on the class-exhaustive probe model ----------------------------
+    law_total(chk, lp, "C04.lexer-end-of-input-tolerant", LF)
+    chk.floor("delimited literal forms", len(fr.delimited), 3)
+    n = law_closer_optional(chk, lp, fr, "C04.closer-optional", LF)
+    chk.unit("lexer probes (closer law)", n)
+    chk.unit("lexer probes (all)", lp.n_probes)
 
     # ---- parser -------------------------------------------------------------------------
     pmod = repo.mod("parse")
@@ -227,21 +130,14 @@ def check(chk, repo, tier):
                    "from truncated programs", PF, n.lineno)
 
     chk.explanation = (
-        "Necessary structural conditions: every look at the lexer's input "
-        "queue is guarded by the queue being non-empty; delimiter-terminated "
-        "literals append their token unconditionally, stop before the "
-        "delimiter and consume it only if present; the branch collector "
+        "Lexer: the current tokenise, interpreted on every string of length "
+        "<= 2 (and a reduced set of length 3) over its own character classes, "
+        "never raises, and for every delimited literal form the tokens of "
+        "`d payload` equal those of `d payload d` for all payloads of up to "
+        "two class characters. Parser (structural): the branch collector "
         "loops while tokens remain, never raises, returns once, and does not "
         "store the outermost closer; parse() never consults the closing "
         "state and none of its rejections depends on it. Does not decide the "
         "full equality of the two parses (a two-run relational property).")
 
 
-def _branch_label(lm, node):
-    for br in lm.branches:
-        if any(node is x for s in br.body for x in ast.walk(s)):
-            if br.chars is ANY:
-                return "default"
-            lab = "".join(sorted(br.chars))
-            return lab if len(lab) <= 5 else lab[:5] + "…"
-    return "loop"
